@@ -92,7 +92,7 @@ PROPS['C13'] = dict(
              'ParameterDict', 'TrialSuggestion'],
     bounds='grid: 2-3 parameters, radices 1..3, _current_index any int >= 0 (arithmetic) / 0..12 (dump-load string hop), '
            'batch sizes 1..3, shuffle seeds 0..3',
-    outside='eagle, NSGA-II, CMA-ES state (numpy arrays, RNG bit-generator state); quasi-random Halton engine (scipy); '
+    outside='eagle, NSGA-II, CMA-ES state (numpy arrays, RNG bit-generator state); '
             'DOUBLE grid axes (numpy linspace)',
     assumptions=['random.Random(seed).shuffle executed natively (seed concrete per branch)'],
     obligations=[
@@ -105,6 +105,12 @@ PROPS['C13'] = dict(
           'dump -> fresh instance -> load continues exactly like the live instance', 'index 0..12, batches 1..2'),
         O('C13.grid_batch_split', 'harness.c13_grid', 'grid_batch_split', 150, 600,
           'suggest(a); suggest(b) == suggest(a+b) for every start index', 'all indices, a,b in 1..2'),
+        O('C13.quasi_restart', 'harness.c13_grid', 'quasi_restart', 90, 300,
+          'QUASI_RANDOM: a restart after every request (fresh instance built with another seed, state loaded from metadata) '
+          'continues the sequence of the never-stopped designer', 'seeds 0..2, 3 batches of 1..2, real scipy Halton'),
+        O('C13.hosted_grid_once_each', 'harness.c13_grid', 'hosted_grid_once_each', 120, 600,
+          'grid search hosted behind PartiallySerializableDesignerPolicy rebuilt per request: every grid point exactly once '
+          'before repeating, for all batch-size sequences', 'radices 1..3 x 1..3, batch sizes 1..3 cyclic, plain and shuffled'),
         O('C13.grid_shuffled_restart', 'harness.c13_grid', 'grid_shuffled_restart', 200, 900,
           'shuffled grid: load() restores the shuffle order from metadata; period = grid size',
           'seeds 0..3, radices 2..3, index 0..9'),
@@ -134,6 +140,12 @@ PROPS['C03'] = dict(
           'get_closest_element returns a member at minimal distance', '1..3 elements', env=_FF),
         O('C03.sample_all_assigned', 'harness.c03_random', 'sample_parameters_all_assigned', None, 1200,
           'every parameter assigned exactly once, in domain', '4 parameters of the 4 types', env=_FF),
+        O('C03.grid_double_members', 'harness.c03_random', 'grid_double_members', 120, 600,
+          'GRID_SEARCH over a DOUBLE axis: every grid value within the bounds (or the configuration is refused)',
+          '7 bound pairs incl. huge/tiny/degenerate, all indices'),
+        O('C03.default_seed', 'harness.c03_random', 'default_seed_in_space', 150, 600,
+          'default/centre seeding (get_default_parameters): the seed suggestion is inside the space',
+          '7 DOUBLE bound pairs x LINEAR/LOG/REVERSE_LOG x with/without default; DISCRETE/CATEGORICAL sizes; any INTEGER bounds'),
         O('C03.grid_members', 'harness.c13_grid', 'grid_members', 200, 900,
           'GRID_SEARCH kernel: each suggestion assigns every parameter a member of its domain',
           'radices 1..3 x 1..3 x 0..2, all indices, count 1..3'),
